@@ -56,6 +56,8 @@ pub struct BatchResult {
     pub class_counts: BTreeMap<String, u64>,
     pub samples: Vec<Value>,
     pub wall_s: f64,
+    /// worker processes that died inside a run (their per-index records are lost)
+    pub crashes: u64,
 }
 
 struct WorkerEnd {
@@ -163,7 +165,16 @@ fn drive_worker(
 
 /// Re-execute one index alone in a fresh child to confirm a crash; returns the
 /// (class, case json) if it dies again.
-fn confirm_crash(bin: &Path, prop: &str, tier: Tier, b: &Batch, seed: u64, crash: &Value) -> Option<(String, Value, String)> {
+enum Solo {
+    /// the index dies again when run alone: (class, case, detail)
+    Died(String, Value, String),
+    /// the index completes alone but reports violations: the worker died while
+    /// minimising one of them (a shrunk variant aborts the process)
+    Violations(Vec<(String, Value)>),
+    Clean,
+}
+
+fn confirm_crash(bin: &Path, prop: &str, tier: Tier, b: &Batch, seed: u64, crash: &Value) -> Solo {
     let idx = crash["index"].as_u64().unwrap_or(0);
     let mut child = Command::new(bin)
         .arg("one")
@@ -175,6 +186,8 @@ fn confirm_crash(bin: &Path, prop: &str, tier: Tier, b: &Batch, seed: u64, crash
         .unwrap_or_else(|e| harness_error(&format!("spawn one: {}", e)));
     let rd = BufReader::new(child.stdout.take().unwrap());
     let mut last_case: Option<Value> = None;
+    let mut execs: Vec<Value> = Vec::new();
+    let mut results: Option<Value> = None;
     let mut finished = false;
     let t0 = Instant::now();
     // a hang is confirmed by a generous wall-clock limit enforced here
@@ -193,17 +206,31 @@ fn confirm_crash(bin: &Path, prop: &str, tier: Tier, b: &Batch, seed: u64, crash
         true
     });
     for line in rd.lines().map_while(|l| l.ok()) {
-        if let Some(r) = line.strip_prefix("C ").or_else(|| line.strip_prefix("E ")) {
+        if let Some(r) = line.strip_prefix("C ") {
             last_case = serde_json::from_str(r).ok();
-        } else if line.starts_with("R ") {
+        } else if let Some(r) = line.strip_prefix("E ") {
+            last_case = serde_json::from_str(r).ok();
+            execs.extend(last_case.clone());
+        } else if let Some(r) = line.strip_prefix("R ") {
+            results = serde_json::from_str(r).ok();
             finished = true;
         }
     }
-    let status = child.wait().ok()?;
+    let status = child.wait().unwrap_or_else(|e| harness_error(&format!("wait one: {}", e)));
     let killed = killer.join().unwrap_or(false);
     let _ = t0;
     if finished && status.success() {
-        return None;
+        let mut v = Vec::new();
+        if let Some(Value::Array(rs)) = results {
+            for (r, c) in rs.iter().zip(execs.iter()) {
+                if let Some(class) = r["class"].as_str() {
+                    if crate::engines::class_belongs(prop, class) {
+                        v.push((class.to_string(), c.clone()));
+                    }
+                }
+            }
+        }
+        return if v.is_empty() { Solo::Clean } else { Solo::Violations(v) };
     }
     use std::os::unix::process::ExitStatusExt;
     let case = last_case.unwrap_or(json!(null));
@@ -220,7 +247,7 @@ fn confirm_crash(bin: &Path, prop: &str, tier: Tier, b: &Batch, seed: u64, crash
         status.code(),
         killed
     );
-    Some((class, case, detail))
+    Solo::Died(class, case, detail)
 }
 
 #[allow(clippy::too_many_arguments)]
@@ -275,9 +302,28 @@ pub fn run_batch(
                 res.violations.insert(class, v);
             }
         }
+        res.crashes += end.crashes.len() as u64;
         for c in end.crashes {
             match confirm_crash(&bin, prop, tier, b, seed, &c) {
-                Some((class, case, detail)) => {
+                Solo::Violations(vs) => {
+                    let idx = c["index"].as_u64().unwrap_or(0);
+                    for (class, case) in vs {
+                        *res.class_counts.entry(class.clone()).or_default() += 1;
+                        let replace = match res.violations.get(&class) {
+                            Some(old) => idx < old["index"].as_u64().unwrap_or(u64::MAX),
+                            None => true,
+                        };
+                        if replace {
+                            res.violations.insert(
+                                class.clone(),
+                                json!({"index": idx, "class": class,
+                                   "detail": "reported unminimised: the worker process died while shrinking this case (a shrunk variant aborts the process)",
+                                   "case": case, "profile": b.profile, "reproduced": true, "min_execs": 0, "events_tail": []}),
+                            );
+                        }
+                    }
+                }
+                Solo::Died(class, case, detail) => {
                     *res.class_counts.entry(class.clone()).or_default() += 1;
                     let idx = c["index"].as_u64().unwrap_or(0);
                     let replace = match res.violations.get(&class) {
@@ -292,7 +338,7 @@ pub fn run_batch(
                         );
                     }
                 }
-                None => harness_error(&format!(
+                Solo::Clean => harness_error(&format!(
                     "worker died in run {} but the run alone completes: nondeterministic crash ({})",
                     c["index"], c
                 )),
@@ -425,22 +471,39 @@ pub fn check(args: &Args) -> i32 {
         let start = b.runs - k;
         let ta = format!("selfA.b{}", bi);
         let tb = format!("selfB.b{}", bi);
-        let _ = run_batch(&prop, tier, &sb, seed, nw, start, &out_dir, &ta, true);
-        let _ = run_batch(&prop, tier, &sb, seed, 3, start, &out_dir, &tb, true);
+        let ra = run_batch(&prop, tier, &sb, seed, nw, start, &out_dir, &ta, true);
+        let rb = run_batch(&prop, tier, &sb, seed, 3, start, &out_dir, &tb, true);
+        let self_crashes = ra.crashes + rb.crashes;
+        for r in [ra, rb] {
+            for (k, v) in r.violations {
+                violations.entry(k).or_insert(v);
+            }
+        }
         let ma = read_per_index(&out_dir, &ta);
         let mb = read_per_index(&out_dir, &tb);
         let mut mism = 0u64;
-        if ma.len() != mb.len() || ma.is_empty() {
+        // a worker that dies loses its per-index records: with crashes (each of which
+        // is reported as a violation) only the indices present on both sides compare
+        if self_crashes == 0 && (ma.len() != mb.len() || ma.is_empty()) {
             mism += 1;
         }
         for (k, v) in &ma {
-            if mb.get(k) != Some(v) {
-                mism += 1;
+            match mb.get(k) {
+                Some(w) if w != v => mism += 1,
+                None if self_crashes == 0 => mism += 1,
+                _ => {}
             }
         }
         selftest["pairs_compared"] = json!(selftest["pairs_compared"].as_u64().unwrap_or(0) + ma.len() as u64);
         selftest["mismatches"] = json!(selftest["mismatches"].as_u64().unwrap_or(0) + mism);
-        if mism > 0 {
+        if mism > 0 && !violations.is_empty() {
+            // executions that violate the property (out-of-bounds reads, aborts) need not
+            // be repeatable; the violations stand and are reported with their replay files
+            eprintln!(
+                "NOTE: {} per-run digests differ between {} and 3 workers in a batch that also reports violations",
+                mism, nw
+            );
+        } else if mism > 0 {
             let _ = std::fs::remove_dir_all(&out_dir);
             harness_error(&format!(
                 "nondeterminism: {} of {} per-run digests differ between {} and 3 workers (batch {} {})",
